@@ -1915,7 +1915,9 @@ class ConstraintSignature(BaseSignature):
             int:
             The hash of the signature.
         """
-        return hash(repr(self))
+        # This must agree with __eq__, which compares attributes
+        # independent of tuple/list and of dictionary order.
+        return hash((self.name, self.type))
 
     def __repr__(self):
         """Return a string representation of the signature.
@@ -2149,7 +2151,9 @@ class IndexSignature(BaseSignature):
             int:
             The hash of the signature.
         """
-        return hash(repr(self))
+        # This must agree with __eq__, which treats empty names as equal
+        # and compares expressions independent of tuple/list.
+        return hash((self.name or None, tuple(self.fields or ())))
 
     def __repr__(self):
         """Return a string representation of the signature.
